@@ -113,28 +113,61 @@ bool Deployer::Run() {
     message_sink_("deploy", !failure ? "success" : "failure");
     // new tasks could have been enqueued while we were sending the message.
     // before quitting, double check if there is nothing left to do.
-  } while (HasPendingTasks());
+  } while (!FinishWork());
   RIME_VERIF_YIELD(RIME_VERIF_RUN_RETURN);
   return !failure;
 }
 
-bool Deployer::StartWork(bool maintenance_mode) {
-  if (IsWorking()) {
-    LOG(WARNING) << "a work thread is already running.";
+bool Deployer::FinishWork() {
+  // checking the queue and giving up the worker role is one critical section:
+  // StartWork() either finds running_ set, in which case the tasks enqueued so
+  // far are seen here, or it finds running_ cleared and starts a new worker.
+  std::lock_guard<std::mutex> lock(mutex_);
+  if (!pending_tasks_.empty())
     return false;
+  running_ = false;
+  return true;
+}
+
+bool Deployer::StartWork(bool maintenance_mode) {
+  size_t num_tasks = 0;
+  {
+    // see FinishWork(): a worker that is still running_ will find the tasks
+    // enqueued before this call; one that has quit is replaced by a new one.
+    std::lock_guard<std::mutex> lock(mutex_);
+    if (running_) {
+      LOG(WARNING) << "a work thread is already running.";
+      return false;
+    }
+    maintenance_mode_ = maintenance_mode;
+    if (pending_tasks_.empty()) {
+      return false;
+    }
+    num_tasks = pending_tasks_.size();
+#ifndef RIME_NO_THREADING
+    running_ = true;
+#endif
   }
   RIME_VERIF_YIELD(RIME_VERIF_STARTWORK_TESTED);
-  maintenance_mode_ = maintenance_mode;
-  if (pending_tasks_.empty()) {
-    return false;
-  }
 #ifdef RIME_NO_THREADING
-  LOG(INFO) << "running " << pending_tasks_.size() << " tasks in main thread.";
+  LOG(INFO) << "running " << num_tasks << " tasks in main thread.";
   return Run();
 #else
-  LOG(INFO) << "starting work thread for " << pending_tasks_.size()
-            << " tasks.";
-  work_ = std::async(std::launch::async, [this] { Run(); });
+  LOG(INFO) << "starting work thread for " << num_tasks << " tasks.";
+  // a previous worker that has quit may not have returned yet: wait for it,
+  // so that there is never more than one work thread.
+  if (work_.valid())
+    work_.wait();
+  work_ = std::async(std::launch::async, [this] {
+    try {
+      Run();
+    } catch (...) {
+      // the worker is gone; let the next StartWork() start a new one.
+      std::lock_guard<std::mutex> lock(mutex_);
+      running_ = false;
+      throw;
+    }
+  });
   RIME_VERIF_YIELD(RIME_VERIF_STARTWORK_SPAWNED);
   return work_.valid();
 #endif
